@@ -316,6 +316,7 @@ class Arr:
         self.dtype = dtype
         self.name = name
         self.intdtype = intdtype  # None | z3 Bool: array has an integer dtype (C08)
+        self.cnt = None  # number of true entries (bool arrays with identity)
 
     def elem(self, *idx):
         idx = [z3.IntVal(i) if isinstance(i, int) else i for i in idx]
@@ -343,7 +344,9 @@ def arr_fresh(name, ndim, shape, dtype="num", ext=False, sort="real"):
     c = ctx()
     if dtype == "bool":
         f = c.uf(name, *([z3.IntSort()] * ndim + [z3.BoolSort()]))
-        return Arr(ndim, shape, lambda *i: f(*i), "bool", name)
+        r = Arr(ndim, shape, lambda *i: f(*i), "bool", name)
+        r.cnt = z3.Int("cnt!" + name)
+        return r
     f = c.uf(name, *([z3.IntSort()] * ndim + [z3.IntSort() if sort == "int" else z3.RealSort()]))
     if ext:
         g = c.uf(name + "!tag", *([z3.IntSort()] * (ndim + 1)))
@@ -611,7 +614,10 @@ def _arr_ite(c, aa, ba):
     if aa.intdtype is not None or ba.intdtype is not None:
         f = z3.BoolVal(False)
         idt = z3.If(c, aa.intdtype if aa.intdtype is not None else f, ba.intdtype if ba.intdtype is not None else f)
-    return Arr(aa.ndim, shp, el, aa.dtype, intdtype=idt)
+    r = Arr(aa.ndim, shp, el, aa.dtype, intdtype=idt)
+    if aa.cnt is not None and ba.cnt is not None:
+        r.cnt = z3.If(c, aa.cnt, ba.cnt)
+    return r
 
 
 def val_ite(c, a, b):
